@@ -37,7 +37,7 @@ setup_worker = common.setup_worker
 
 def cases(tier, seed):
   out = []
-  nds = 2 if tier == 'quick' else 8
+  nds = 2 if tier == 'quick' else 24
   nq = 24 if tier == 'quick' else 220
   variants = ('plain', 'unbalanced', 'offset', 'small_scale', 'large_scale',
               'illcond', 'int', 'dyadic')
@@ -60,7 +60,7 @@ def cases(tier, seed):
   # learners whose metric is rank deficient by construction (MMC's projected
   # matrices, SCML's sparse combinations): "pseudo"-metrics proper, and the
   # eigen-decomposition path of the metric -> transformation step
-  extra = 12 if tier == 'quick' else 60
+  extra = 12 if tier == 'quick' else 200
   for name in ('MMC', 'MMC_Supervised', 'SCML_Supervised'):
     for ds in common.ds_specs(seed, 'C01x' + name, extra, dmax=5):
       out.append({'est': name, 'params': {}, 'ds': ds, 'seed': seed % 1000,
